@@ -233,6 +233,13 @@ func (u *Universe) nextPacket(t *rapid.T, prev *SPacket, gap int64, startUS int6
 		stride = 1<<32 + 3
 	}
 	p.File = cp.Name
+	// now and then the packet was put together from IP fragments: the earlier fragments have positions of their own
+	if rapid.IntRange(0, 15).Draw(t, "fragments") == 0 {
+		for i, n := 0, rapid.IntRange(1, 2).Draw(t, "earlier"); i < n; i++ {
+			p.Earlier = append(p.Earlier, SPos{File: cp.Name, Index: cp.Next})
+			cp.Next++
+		}
+	}
 	p.Index = cp.Next + stride
 	cp.Next = p.Index + 1
 	return p
